@@ -73,6 +73,34 @@ theorem run_lang (S : SState) (w : List Byte) (t : Nat) (v : List Byte) :
     simp only [run] at this
     rw [this, step_lang]
 
+/-- every byte set occurring in the residuals of `S` is in `sets` -/
+def setsWithin (sets : List ByteSet) (S : SState) : Bool :=
+  S.all fun it => it.2.clsSets.all fun s => sets.contains s
+
+/-- bytes that no set of `sets` tells apart lead to the same successor state -/
+theorem step_congr (sets : List ByteSet) (S : SState) (c c' : Byte)
+    (hS : setsWithin sets S = true) (hc : sets.map (·.mem c) = sets.map (·.mem c')) :
+    step c S = step c' S := by
+  unfold step
+  congr 1
+  have key : ∀ it ∈ S, (Re.pderiv c it.2).map (fun p => (it.1, p)) =
+      (Re.pderiv c' it.2).map (fun p => (it.1, p)) := by
+    intro it hit
+    rw [Re.pderiv_congr c c' it.2]
+    intro s hs
+    simp only [setsWithin, List.all_eq_true] at hS
+    have h1 := hS it hit s hs
+    have h2 : s ∈ sets := by simpa using h1
+    obtain ⟨i, hi, rfl⟩ := List.getElem_of_mem h2
+    have := congrArg (fun l => l[i]?) hc
+    simpa [hi] using this
+  clear hS
+  induction S with
+  | nil => rfl
+  | cons it S ih =>
+    simp only [List.flatMap_cons]
+    rw [key it (by simp), ih (fun it' h' => key it' (by simp [h']))]
+
 /-- the sorted list of tags that accept in `S` -/
 def accTags (S : SState) : List Nat :=
   dedupAdj (((S.filter fun it => it.2.nullable).map fun it => it.1).mergeSort (fun a b => a ≤ b))
@@ -177,7 +205,7 @@ theorem specAuto_tags (S : RuleSet) (sc : Nat) (atBol : Bool) (w : List Byte) (t
   · have e : t = 2 * (t / 2) := by omega
     rw [e, start_full]
     have : 2 * (t / 2) / 2 = t / 2 := by omega
-    simp [this, h]
+    simp [this]
   · have e : t = 2 * (t / 2) + 1 := by omega
     rw [e, start_head]
     have : (2 * (t / 2) + 1) / 2 = t / 2 := by omega
